@@ -21,6 +21,7 @@ EXPLANATION = (
     "(c) documents are written atomically (C10-a/b); (d) the job listing does not raise when the workspace directory is "
     "missing or being created."
     ' (e) No caller makes Job.init() conditional on an existence test of the job directory.'
+    ' (f) In _StatePointDict.save the clean-up deletion of the state point file is unreachable for EEXIST / EACCES (handler evaluated for abstract error kinds); (g) no signac collection brings its own _save_to_resource staging under a fixed name, and the document accessors write nothing.'
 )
 UNDECIDED = ("Interleavings are not explored: freedom from races, 'every process completes without error' and the final "
              "content being that of some sequential execution are not decided.")
